@@ -317,6 +317,10 @@ func (x *exec) dispatch(st *State, fr *Frame, ins ssa.Instruction, c *ssa.CallCo
 			te.Pkg, te.Name = tn[:i], tn[i+1:]
 		}
 		t := env.resolveType(te)
+		if it, ok := types.Unalias(c.Value.Type()).Underlying().(*types.Interface); ok && !types.Implements(t, it) {
+			// the static type of the receiver rules this dynamic type out
+			continue
+		}
 		is := e.ctx.Name("disp", smt.Eq(e.dyn(recv), e.typeTag(t)))
 		conds = append(conds, is)
 		sel := e.w.Prog.SSA.MethodSets.MethodSet(t).Lookup(c.Method.Pkg(), c.Method.Name())
@@ -349,6 +353,10 @@ func (x *exec) dispatch(st *State, fr *Frame, ins ssa.Instruction, c *ssa.CallCo
 		}
 	}
 	st.assume(smt.Not(smt.Or(conds...)))
+	if fs.Opts["dispatch_else"] == "contract" {
+		x.applyContract(st, fr, ins, ci, fs, args, kind, k)
+		return
+	}
 	e.obligation(st, "dispatch", fmt.Sprintf("%s#%d", shortKey(ci.key), x.callOrdinal(ins, ci.key)), "C09.nopanic",
 		"the receiver's dynamic type is one of: "+list, fs.Pos.String(), smt.False)
 }
@@ -487,6 +495,12 @@ func (x *exec) applyContract(st *State, fr *Frame, ins ssa.Instruction, ci calle
 				penv.havocLocation(st, m)
 			}
 		}
+	}
+	// the callee may allocate: the allocation clock moves on
+	if !fs.NoEffect {
+		nc := e.ctx.Fresh("clk", smt.Int)
+		st.assume(smt.IntBin(">=", nc, st.clock))
+		st.clock = nc
 	}
 	// results
 	var rets []Value
